@@ -41,6 +41,60 @@ EXTRA_SOURCES = [
     "try: pass\nexcept E: pass\nelse: x = [1]\nfinally: pass\n",
 ]
 
+# Everything the offset walk special-cases, in MULTI-LINE form with token gaps on each of its lines (`x (y)` is a call whose
+# node ends on the line it is on).  Small on purpose: enumerated completely in every tier.
+#  - decorators (lineno of the definition is past its decorators): first and later ones, multi-line, nested calls,
+#    on def / async def / class / method
+#  - nodes without own positions (arguments, comprehension, withitem, match_case, operators)
+#  - children whose syntax order interleaves fields (Call / ClassDef args+keywords, Dict, MatchMapping, defaults, Compare)
+MULTILINE_SOURCES = [
+    "@deco(g (a, b), h.i,\n      c (d))\n@ second(\n    x (y))\ndef f(): pass\n",
+    "@ d.e(g (a)[0], k=h (b),\n       *c (1))\nasync def f(): pass\n@(m . n\n  (p (q), r))\n@ last\nclass C(A,\n        B): pass\n",
+    "class K:\n    @ wrap(inner (a, b),\n           c (d))\n    @ again (\n        e)\n    def m(self): pass\n",
+    "def f(a, b=g (1),\n      /, c=h (2), *d,\n      e=i (3), **k): pass\n"
+    "r = [x (y) for x in p (q)\n     if x if y (z)\n     for z in w (v)]\n",
+    "with (a (b) as c,\n      d (e) as f): pass\n"
+    "match s (t):\n    case [a, b (c=1),\n          *r] if g (h): pass\n    case {'k': v (),\n          **z}: pass\n",
+    "r = f(a (1), k=b (2),\n      *c (3), j=d (4),\n      **e (5))\nclass K(A (1), m=M (2),\n        *B (3)): pass\n",
+    "d = {a (1): b (2),\n     **c (3), e: f (4)}\nx = a (1) < b (2) < \\\n    c (3)\ny = lambda p, q=g (1), *, \\\n    s=h (2): p (q)\n",
+]
+
+
+def explode(src: str) -> str:
+    """Layout family: every bracketed construct in multi-line form - a line break (+ indentation) after every opening
+    bracket and every comma inside brackets.  stdlib only; returned unchanged unless it is the same token sequence."""
+    tk = toks(src)
+    if tk is None:
+        return src
+    lines = src.split('\n')
+    depth = fdepth = 0
+    cuts = []
+    for t in tk:
+        if t.type == FSTART:
+            fdepth += 1
+        elif t.type == FEND:
+            fdepth -= 1
+        if t.type != T.OP or fdepth > 0:
+            continue
+        if t.string in '([{':
+            depth += 1
+            cuts.append((t.end[0] - 1, t.end[1], depth))
+        elif t.string in ')]}':
+            depth -= 1
+        elif t.string == ',' and depth > 0:
+            cuts.append((t.end[0] - 1, t.end[1], depth))
+    for ln, col, d in reversed(cuts):
+        l = lines[ln]
+        if not l[col:].strip() or l[col:].lstrip().startswith('#'):
+            continue  # already at a line end
+        ind = len(l) - len(l.lstrip())
+        lines[ln: ln + 1] = [l[:col], ' ' * (ind + 2 * d) + l[col:].lstrip()]
+    new = '\n'.join(lines)
+    tn = toks(new)
+    if tn is None or sig(tn) != sig(tk) or try_parse(new) is None:
+        return src
+    return new
+
 REPL_LINES = ['', '\n', '# c\n', '\n\n', '    # c\n', '\n# é\n']
 
 
